@@ -782,10 +782,10 @@ def parser_details(repo, rep, rule="R03.3"):
     gin = _re.compile(rcn.pattern, rcn.flags).groupindex
     locn = rx.locate_group(rx.parse(rcn.pattern, rcn.flags), gin["name"])
     csn = rx.all_chars(locn[0]) if locn is not None else None
-    rep.check(csn is not None and not any(ch in csn for ch in " \t\n\r>")
+    rep.check(csn is not None and not any(ch in csn for ch in " \t\n\r")
               and all(ch in csn for ch in "a:-_."), rule,
               "chameleon.parser.match_tag_prefix_and_name", "a tag name "
-              "(with its prefix) contains no white space and no '>'",
+              "(with its prefix) contains no white space",
               construct="tag-name-class", detail=str(csn))
     rc = repo.const("chameleon.parser", "match_single_attribute")
     gi = _re.compile(rc.pattern, rc.flags).groupindex
